@@ -291,4 +291,15 @@ def _pin_p22():
     return None
 
 
-PINNED = {"P21-unflatten-estimated-shape": _pin_p21, "P22-merge-pads-with-default": _pin_p22}
+def _pin_p35():
+    leaf = Fiber([0], [0])
+    k = Fiber([0, 1], [Fiber([0], [leaf]), Fiber([], [])])     # an empty sub-fiber last
+    t = Tensor.fromFiber(["M", "K", "N", "P"], Fiber([0], [k]), shape=[1, 2, 1, 1], default=2)
+    got = observe.tensor_content(t.flattenRanks(depth=0, levels=3, coord_style="tuple"))
+    if got != {((0, 0, 0, 0),): 0}:
+        return f"flattenRanks(levels=3) of {{(0,0,0,0): 0}} with leaf default 2 and an empty K fiber gives {got}"
+    return None
+
+
+PINNED = {"P21-unflatten-estimated-shape": _pin_p21, "P22-merge-pads-with-default": _pin_p22,
+          "P35-flatten-default-from-empty-lower": _pin_p35}
